@@ -207,6 +207,9 @@ def h_errors(ctx, kind):
         _reply(ctx, conn, dict(result=5, error=dict(message='m'), id=1))
     elif kind == 'nondict':
         _reply(ctx, conn, dict(result=5, error='boom', id=1))
+    elif kind.startswith('falsy'):
+        val = {'falsy_dict': {}, 'falsy_str': '', 'falsy_zero': 0, 'falsy_list': [], 'falsy_false': False}[kind]
+        _reply(ctx, conn, dict(result=5, error=val, id=1))
     elif kind == 'noresult':
         _reply(ctx, conn, dict(error=None, id=1))
     elif kind == 'nonjson':
@@ -244,6 +247,6 @@ def instances(tier):
     for m in ('sendtoaddress', 'sendmany'):
         out.append(dict(h='sent', p=dict(method=m), backend='cvc5', max_seconds=1500, qto=600000))
     out.append(dict(h='hashes'))
-    for k in ('code', 'nocode', 'nondict', 'noresult', 'nonjson', 'noresponse'):
+    for k in ('code', 'nocode', 'nondict', 'noresult', 'nonjson', 'noresponse', 'falsy_dict', 'falsy_str', 'falsy_zero', 'falsy_list', 'falsy_false'):
         out.append(dict(h='errors', p=dict(kind=k)))
     return out
